@@ -76,6 +76,8 @@ type vC16Event struct {
 	NoAnswer int              `json:"noanswer"` // publishes without an answer although a later fence was acknowledged
 	Paused   bool             `json:"paused"` // the partition was paused when the round ended
 	Pauses   int              `json:"pauses"` // PauseStream calls of the round (information only)
+	Restarts int              `json:"restarts"` // server restarts of the round (information only)
+	Recreate bool             `json:"recreate"` // the stream had a deleted predecessor with the opposite setting
 	Note     string           `json:"note,omitempty"`
 }
 
@@ -110,6 +112,8 @@ type vC16Round struct {
 	pubs   map[string]*vC16Pub
 	pauses int
 	note   string
+	env      *vC16Env
+	restarts int
 }
 
 // cur returns the partition object now in the metadata (resuming a paused
@@ -438,6 +442,8 @@ func (r *vC16Round) runWave(wave map[string]interface{}) (timeouts int) {
 			switch a := vStr(s.(map[string]interface{}), "a"); a {
 			case "Pause":
 				r.pause()
+			case "Restart":
+				r.restart()
 			default:
 				panic("unknown driver step " + a)
 			}
@@ -486,6 +492,97 @@ func (r *vC16Round) runWave(wave map[string]interface{}) (timeouts int) {
 	return timeouts
 }
 
+// vC16Env is the one-node server of the run; a round may restart it (same data
+// directory: the metadata is rebuilt from the Raft log / snapshot, the streams
+// and their commit logs are reopened).
+type vC16Env struct {
+	t    *testing.T
+	cfg  *Config
+	srv  *Server
+	conn *grpc.ClientConn
+	api  client.APIClient
+}
+
+func (e *vC16Env) start() {
+	e.srv = vOneNodeServer(e.t, e.cfg)
+	conn, err := grpc.Dial(fmt.Sprintf("127.0.0.1:%d", e.srv.GetListenPort()), grpc.WithInsecure())
+	if err != nil {
+		e.t.Fatalf("INCONCLUSIVE: dial: %v", err)
+	}
+	e.conn, e.api = conn, client.NewAPIClient(conn)
+}
+
+func (e *vC16Env) stop() {
+	if e.conn != nil {
+		e.conn.Close()
+	}
+	if e.srv != nil {
+		e.srv.Stop()
+	}
+}
+
+func (r *vC16Round) waitLeader() {
+	deadline := time.Now().Add(3 * vC16Deadline)
+	for {
+		r.part = r.srv.metadata.GetPartition(r.stream, 0)
+		if r.part != nil {
+			if l, _ := r.part.GetLeader(); l == "a" && r.part.IsLeader() {
+				return
+			}
+		}
+		if time.Now().After(deadline) {
+			r.t.Fatalf("INCONCLUSIVE: partition did not start")
+		}
+		time.Sleep(200 * time.Microsecond)
+	}
+}
+
+func (r *vC16Round) createStream(occ bool) {
+	req := &client.CreateStreamRequest{Name: r.stream, Subject: r.stream}
+	if occ {
+		req.OptimisticConcurrencyControl = &client.NullableBool{Value: true}
+	}
+	for attempt := 1; ; attempt++ {
+		// a loaded machine can exceed the 5 s Raft apply timeout: retry
+		_, err := r.srv.api.CreateStream(context.Background(), req)
+		if err == nil || status.Code(err) == codes.AlreadyExists {
+			break
+		}
+		if attempt >= 6 {
+			r.t.Fatalf("INCONCLUSIVE: create stream: %v", err)
+		}
+		time.Sleep(time.Second)
+	}
+	r.waitLeader()
+}
+
+// restart: stop the server and start it again on the same data directory
+// (between two waves: nothing is in flight), then reconnect the publishers.
+func (r *vC16Round) restart() {
+	wasPaused := r.cur().IsPaused()
+	for _, p := range r.pubs {
+		if p.stream != nil {
+			p.stream.CloseSend()
+			p.cancel()
+			p.stream = nil
+		}
+	}
+	r.env.stop()
+	r.env.start()
+	r.srv, r.api = r.env.srv, r.env.api
+	if !wasPaused {
+		r.waitLeader()
+	}
+	for _, p := range r.pubs {
+		if r.cfg.Path == "async" {
+			if err := p.openAsync(); err != nil {
+				r.t.Fatalf("INCONCLUSIVE: reopen publish stream: %v", err)
+			}
+		}
+	}
+	r.restarts++
+}
+
 func TestVerifC16Server(t *testing.T) {
 	sf := vLoadStimuli(t)
 	tw := vOpenTrace(t)
@@ -497,14 +594,9 @@ func TestVerifC16Server(t *testing.T) {
 
 	defer os.RemoveAll(storagePath)
 	// private embedded-NATS port (other server harnesses run on this machine)
-	srv := vOneNodeServer(t, vOneNodeConfig(t, "a"))
-	defer srv.Stop()
-	conn, err := grpc.Dial(fmt.Sprintf("127.0.0.1:%d", srv.GetListenPort()), grpc.WithInsecure())
-	if err != nil {
-		t.Fatalf("INCONCLUSIVE: dial: %v", err)
-	}
-	defer conn.Close()
-	api := client.NewAPIClient(conn)
+	env := &vC16Env{t: t, cfg: vOneNodeConfig(t, "a")}
+	env.start()
+	defer func() { env.stop() }()
 	emit(vC16Event{T: 0, A: "Open", Msgs: []vC16Msg{}, Log: []vC16Entry{}, Known: map[string]int64{}})
 
 	timedOutRounds := 0
@@ -517,41 +609,38 @@ func TestVerifC16Server(t *testing.T) {
 		}
 		emit(vC16Event{T: b.ID, A: "Begin", Msgs: []vC16Msg{}, Log: []vC16Entry{}, Known: map[string]int64{}})
 		var clk int64
-		r := &vC16Round{t: t, id: b.ID, srv: srv, api: api, clk: &clk, pubs: map[string]*vC16Pub{},
+		srv := env.srv
+		r := &vC16Round{t: t, id: b.ID, srv: env.srv, api: env.api, env: env, clk: &clk, pubs: map[string]*vC16Pub{},
 			stream: fmt.Sprintf("c16-%d", b.ID)}
 		r.cfg = vC16Cfg{Batch: int(vInt(b.Cfg, "batch")), BatchMs: int(vIntDef(b.Cfg, "batchMs", 0)),
 			Path: vStrDef(b.Cfg, "path", "async")}
 		// batching settings of the server for the leader loop of this round's stream
 		srv.config.BatchMaxMessages = r.cfg.Batch
 		srv.config.BatchMaxTime = time.Duration(r.cfg.BatchMs) * time.Millisecond
-		req := &client.CreateStreamRequest{Name: r.stream, Subject: r.stream}
-		if vBool(b.Cfg, "occ") {
-			req.OptimisticConcurrencyControl = &client.NullableBool{Value: true}
-		}
-		for attempt := 1; ; attempt++ {
-			// a loaded machine can exceed the 5 s Raft apply timeout: retry
-			_, err := srv.api.CreateStream(context.Background(), req)
-			if err == nil || status.Code(err) == codes.AlreadyExists {
-				break
-			}
-			if attempt >= 6 {
-				t.Fatalf("INCONCLUSIVE: create stream: %v", err)
-			}
-			time.Sleep(time.Second)
-		}
-		deadline := time.Now().Add(vC16Deadline)
-		for {
-			r.part = srv.metadata.GetPartition(r.stream, 0)
-			if r.part != nil {
-				if l, _ := r.part.GetLeader(); l == "a" && r.part.IsLeader() {
+		if vBool(b.Cfg, "recreate") {
+			// an earlier incarnation of the stream with the opposite setting: created,
+			// written to, deleted - then the stream of the round is created
+			r.createStream(!vBool(b.Cfg, "occ"))
+			ctx, cancel := context.WithTimeout(context.Background(), vC16Deadline)
+			r.srv.api.Publish(ctx, &client.PublishRequest{Stream: r.stream, Value: []byte("old"), // nolint: errcheck
+				AckPolicy: client.AckPolicy_LEADER, ExpectedOffset: -1})
+			cancel()
+			for attempt := 1; ; attempt++ {
+				_, err := r.srv.api.DeleteStream(context.Background(), &client.DeleteStreamRequest{Name: r.stream})
+				if err == nil || status.Code(err) == codes.NotFound {
 					break
 				}
+				if attempt >= 6 {
+					t.Fatalf("INCONCLUSIVE: delete stream: %v", err)
+				}
+				time.Sleep(time.Second)
 			}
-			if time.Now().After(deadline) {
-				t.Fatalf("INCONCLUSIVE: partition did not start")
+			dl := time.Now().Add(vC16Deadline)
+			for r.srv.metadata.GetStream(r.stream) != nil && time.Now().Before(dl) {
+				time.Sleep(time.Millisecond)
 			}
-			time.Sleep(200 * time.Microsecond)
 		}
+		r.createStream(vBool(b.Cfg, "occ"))
 		// observed, not assumed
 		r.cfg.Occ = r.part.log.IsConcurrencyControlEnabled()
 
@@ -573,7 +662,7 @@ func TestVerifC16Server(t *testing.T) {
 		endedPaused := r.cur().IsPaused()
 		if endedPaused {
 			ctx, cancel := context.WithTimeout(context.Background(), vC16Deadline)
-			if err := srv.api.resumeStream(ctx, r.stream, 0); err != nil && r.note == "" {
+			if err := r.srv.api.resumeStream(ctx, r.stream, 0); err != nil && r.note == "" {
 				r.note = "resume for the final read failed: " + err.Error()
 			}
 			cancel()
@@ -613,7 +702,7 @@ func TestVerifC16Server(t *testing.T) {
 			logOut[i] = vC16Entry{Off: e.off, ID: ids[e.val]} // 0 = not a message of this round
 		}
 		ev := vC16Event{T: b.ID, A: "Round", Cfg: &r.cfg, Msgs: msgs, Log: logOut,
-			Clk: atomic.LoadInt64(r.clk) + 1, Known: known, Timeouts: unanswered, NoAnswer: noanswer, Paused: endedPaused, Pauses: r.pauses}
+			Clk: atomic.LoadInt64(r.clk) + 1, Known: known, Timeouts: unanswered, NoAnswer: noanswer, Paused: endedPaused, Pauses: r.pauses, Restarts: r.restarts, Recreate: vBool(b.Cfg, "recreate")}
 		if rerr != nil {
 			ev.A, ev.Note = "Unreadable", "reading the final log: "+rerr.Error()
 		} else if r.note != "" {
@@ -630,7 +719,7 @@ func TestVerifC16Server(t *testing.T) {
 				p.cancel()
 			}
 		}
-		if _, err := srv.api.DeleteStream(context.Background(), &client.DeleteStreamRequest{Name: r.stream}); err != nil {
+		if _, err := r.srv.api.DeleteStream(context.Background(), &client.DeleteStreamRequest{Name: r.stream}); err != nil {
 			t.Logf("delete stream: %v", err)
 		}
 	}
